@@ -212,7 +212,7 @@ func treeParents(root *clipper.PolyPathBase) ([]int, clipper.Paths64) {
 }
 
 var dviApis = []string{"BooleanOpPathsD", "BooleanOpPolyTreeD", "EngineD", "InflatePathsD", "MinkowskiSumD", "MinkowskiDiffD",
-	"RectClipPathsD", "RectClipLinesPathsD", "TrimCollinearD", "EngineDTreeOpen"}
+	"RectClipPathsD", "RectClipLinesPathsD", "TrimCollinearD", "EngineDTreeOpen", "WrapperD"}
 
 type dviIn struct {
 	a, b []decPath
@@ -260,6 +260,22 @@ func execDvi(e *DviEv, in dviIn) {
 		switch e.Api {
 		case "BooleanOpPathsD":
 			rD = clipper.BooleanOpPathsD(ct, aD, bD, fr, p)
+			r64 = clipper.BooleanOpPaths64(ct, a64, b64, fr)
+		case "WrapperD": // the one-call wrappers per clip type (UnionPathsD when the second operand is empty)
+			switch e.Ct {
+			case 1:
+				rD = clipper.IntersectWithClipPathsD(aD, bD, fr, p)
+			case 2:
+				if len(bD) == 0 {
+					rD = clipper.UnionPathsD(aD, fr, p)
+				} else {
+					rD = clipper.UnionWithClipPathsD(aD, bD, fr, p)
+				}
+			case 3:
+				rD = clipper.DifferenceWithClipPathsD(aD, bD, fr, p)
+			default:
+				rD = clipper.XorWithClipPathsD(aD, bD, fr, p)
+			}
 			r64 = clipper.BooleanOpPaths64(ct, a64, b64, fr)
 		case "EngineD":
 			c := clipper.NewClipperD(p)
@@ -446,6 +462,11 @@ func driveDvi(r *rand.Rand, w *writer, n int) {
 		case "TrimCollinearD":
 			in.a = in.a[:1]
 			in.b = []decPath{}
+		case "WrapperD":
+			in.b = []decPath{decPoly(r, lim, 3+r.Intn(5))}
+			if e.Ct == 2 && r.Intn(2) == 0 {
+				in.b = []decPath{} // UnionPathsD
+			}
 		default:
 			in.b = []decPath{decPoly(r, lim, 3+r.Intn(5))}
 		}
